@@ -7,7 +7,7 @@ LEVEL = "proof"
 
 def components():
     return [comps_iff.IffCompile(), comps_iff.IffValue(), comps_restrict.RangeDirect(), comps_restrict.RangeChain(),
-            comps_depset.DepSets()]
+            comps_restrict.StringChain(), comps_depset.DepSets()]
 
 
 def oracles_():
@@ -53,6 +53,16 @@ MANIFEST = {
             "C11_range_strictness_refuted (3..7 under 1..5 | 6..9, 0..min, 1.50 are rejected), each a listed known finding "
             "with a replayed witness; Examples C11_range_former_witnesses (1 50, 5 1, 1||: fixed defects, now rejected) and "
             "C11_range_first_part_copy_refuted (regression against a first-part-only copy of an inherited length). "
+            "(2b) string types along a typedef chain, length AND patterns (Properties_C11_restrstr.v; model RestrictStr.v of "
+            "lys_compile_type_ case LY_TYPE_STRING on top of Restrict.v; a pattern is an opaque value with an arbitrary "
+            "matcher): C11_string_chain_independent - for ANY levels (each = optional length argument text + pattern "
+            "statements) the chain compiles to exactly (the length chain of the length statements alone, the base's patterns "
+            "followed by all levels' patterns in order) and fails exactly when the length chain fails; "
+            "C11_string_chain_accepts - the leaf accepts a value iff its length passes the effective length and EVERY pattern "
+            "of EVERY level matches, whichever levels restate which; C11_string_level_inherits_length (a level without a "
+            "length statement keeps ALL inherited parts), C11_string_level_keeps_patterns; Example "
+            "C11_string_chain_regressions (first-part-only copy of an inherited length; inherited patterns lost when only the "
+            "length is restated). "
             "(3) dependency sets (Properties_C11_depset.v; lys_unres_dep_sets_create with a start module, as of /repo 64300ce; "
             "all modules implemented, no submodules): C11_depset_exact - the set computed for a module with data nodes or "
             "features is exactly the set of such modules connected to it by import chains, in either direction, through "
@@ -63,7 +73,9 @@ MANIFEST = {
             "lysc_iffeature_value (exhaustive small ASTs x renderings x assignments); lys_compile_type_range called directly "
             "with a hand-made base, and through lys_parse_mem on typedef chains of depth 1-4 (int8..uint64, decimal64, string "
             "/ binary length, levels without restriction or with only a pattern) with lyd_value_validate probes around every "
-            "boundary; lys_unres_dep_sets_create on generated families of 2-7 modules (exact set and order). "
+            "boundary; chains of string typedefs whose levels have a length, patterns, both or neither (component strchain: compiled "
+            "length parts, the compiled patterns of the leaf type in order, probe lengths); lys_unres_dep_sets_create on "
+            "generated families of 2-7 modules (exact set and order). "
             "SEARCH ONLY (testing, no proof): flatten-equiv - a generated structured module set (typedef chains with defaults "
             "/ units, groupings with uses nested up to three levels, refine incl. the same target at several levels, "
             "uses-augment, own and foreign augments incl. choice cases, submodules with their own import prefixes, deviations, "
@@ -78,13 +90,15 @@ MANIFEST = {
             "restrict-rfc - the library against an independent Python reading of RFC 7950 9.2.4 / 9.4.4.",
     "note": "Modelled (transcribed branch by branch, tied by T2, not verified against the C source): lys_compile_iffeature, "
             "lysc_iffeature_value; lys_compile_type_range, range_part_minmax, range_part_check_value_syntax, "
-            "range_part_check_ascendancy, the hand-down of the compiled restriction in lys_compile_type (a typedef without own "
-            "range / length, or with only a pattern, is one 'no restriction' level: lysc_range_dup is covered by T2 only), "
+            "range_part_check_ascendancy, the hand-down of the compiled restriction in lys_compile_type (in Restrict.v a typedef without own "
+            "range / length is one 'no restriction' level; RestrictStr.v adds the string case with the duplication of the "
+            "inherited length / patterns - lysc_range_dup, lysc_patterns_dup and lys_compile_type_patterns as 'all parts' / "
+            "'append' - tied by strchain), "
             "lyplg_type_validate_range, ly_parse_int / ly_parse_uint (slice types); lys_unres_dep_sets_create(_mod_r), "
             "LYS_IS_SINGLE_DEP_SET, lys_has_dep_mods for implemented modules without submodules. NOT modelled, covered by the "
             "oracles only: expansion of typedef / grouping / uses / refine / augment / submodule / deviation (lys_compile_node*, "
             "schema_compile_amend.c), prefix scopes of submodules, load order, feature changes, recompilation. Outside "
-            "everything: pattern and enum / bits restrictions as such, leafref / must / when XPath compilation beyond the few "
+            "everything: what a pattern matches (patterns are opaque here; regular expressions are property C18), enum / bits restrictions, leafref / must / when XPath compilation beyond the few "
             "fixed shapes the families use, extensions, RPCs / notifications, YIN. Oracle conventions: in the compiled prints "
             "compared by flatten-equiv the when statements are removed (the twin re-roots the XPath; its meaning is compared on "
             "instance documents) and runs of siblings added by uses-augments are sorted (libyang's order among them depends on "
